@@ -216,6 +216,31 @@ def valueDict (w : W) (p : Panel) : List (String × Val) := p.map fun e => (e.1,
 /-- value returned by `workflow()` given the world as the run left it -/
 def runReturn (w : W) : Option (List (String × Val)) := (w.panel .outputs).map (valueDict w)
 
+/-! ## `Workflow._rebuild_data_io` (the last step of `Workflow.replace_child`) -/
+
+/-- how `_rebuild_data_io` indexes the new panel for a connected entry of the old panel:
+the pinned code uses the child channel's own label (`new[old_channel.label]`), the repaired
+code the panel key -/
+inductive RebuildKey | chanLabel | panelKey
+  deriving DecidableEq, Repr
+
+/-- the own label of channel `c` (`channel.label`) -/
+def W.labelOf (w : W) (s : Side) (c : Nat) : String :=
+  (((w.children.flatMap (fun ch => ch.side s)).find? (fun lc => lc.2 == c)).map Prod.fst).getD ""
+
+/-- old and new panel are both built from the already swapped children; every *connected*
+entry of the old panel is then looked up in the new one. A failed lookup (or a panel that
+cannot be built) raises; `replace_child` answers by calling itself to revert, which fails
+the same way, until the recursion limit. -/
+def rebuildLookupOk (cfg : RebuildKey) (w : W) (s : Side) : Bool :=
+  match w.panel s with
+  | none => false
+  | some p => p.all fun e => !w.connected e.2 ||
+      (panelGet p (match cfg with | .chanLabel => w.labelOf s e.2 | .panelKey => e.1)).isSome
+
+def rebuildOk (cfg : RebuildKey) (w : W) : Bool :=
+  rebuildLookupOk cfg w .inputs && rebuildLookupOk cfg w .outputs
+
 /-! ## Editing operations -/
 
 def registerChans (g : Conn.G) (k : Conn.Kind) : List Nat → Conn.G
